@@ -367,11 +367,61 @@ fn signzone_event(w: &mut TraceWriter, rng: &mut Rng, reals: &[realkeys::RealKey
         ops.push((op, order[at..end].to_vec()));
         at = end;
     }
+    // ---- now and then the collection is edited on the way: the records of an
+    // owner [and type] are removed (remove_first until nothing is left, or
+    // remove_all) and arrive again, one of them first; a stored record gets
+    // other data (update_data)
+    let (mut recs, mut rrs) = (recs, rrs);
+    if rng.chance(1, 2) {
+        for _ in 0..1 + rng.below(3) {
+            let i = rng.below(n as u64) as usize;
+            let at = 1 + rng.below(ops.len() as u64) as usize;
+            let arrived: Vec<usize> = ops[..at].iter().flat_map(|(_, v)| v.iter().cloned()).collect();
+            if !arrived.contains(&i) || recs[i].rtype() == domain::base::iana::Rtype::SOA {
+                continue;
+            }
+            if rng.chance(1, 2) {
+                let t = recs[i].rtype().to_int();
+                let mut d = rrs[i].clone();
+                let k = rng.below(8) as usize;
+                d["rd"] = rdata(rng, t, k);
+                let Ok(mut r) = records_of(&Value::Array(vec![d.clone()])) else { continue };
+                recs.push(r.remove(0));
+                rrs.push(d);
+                ops.insert(at, ("update", vec![i, recs.len() - 1]));
+            } else {
+                let any = rng.chance(1, 3);
+                let mut back: Vec<usize> = arrived.iter().cloned()
+                    .filter(|j| recs[*j].owner().name_eq(recs[i].owner()) && (any || recs[*j].rtype() == recs[i].rtype()))
+                    .collect();
+                for k in (1..back.len()).rev() {
+                    back.swap(k, rng.below(k as u64 + 1) as usize);
+                }
+                ops.insert(at, (*rng.pick(&["remove_all", "remove_first", "remove_all_any"]), vec![i]));
+                ops.insert(at + 1, (if rng.chance(1, 2) { "insert" } else { "extend" }, back));
+            }
+        }
+    }
     let build = || -> Coll {
+        use domain::base::iana::Class;
         let mut coll: Coll = SortedRecords::default();
         for (op, idx) in &ops {
             let batch: Vec<SRecord> = idx.iter().map(|i| recs[*i].clone()).collect();
             match *op {
+                "remove_all" => {
+                    coll.remove_all_by_name_class_rtype(batch[0].owner(), Some(Class::IN), Some(batch[0].rtype()));
+                }
+                "remove_all_any" => {
+                    coll.remove_all_by_name_class_rtype(batch[0].owner(), None, None);
+                }
+                "remove_first" => {
+                    while coll.remove_first_by_name_class_rtype(batch[0].owner(), Some(Class::IN), Some(batch[0].rtype())) {}
+                }
+                "update" => {
+                    let old = batch[0].clone();
+                    coll.update_data(|r| r.owner().name_eq(old.owner()) && r.rtype() == old.rtype() && r.data() == old.data(),
+                                     batch[1].data().clone());
+                }
                 "insert" => {
                     for r in batch {
                         let _ = coll.insert(r);
@@ -401,8 +451,11 @@ fn signzone_event(w: &mut TraceWriter, rng: &mut Rng, reals: &[realkeys::RealKey
         // the collection as it hands its records out, each as the JSON it was made from
         let mut stored = vec![];
         for r in coll.iter() {
-            let i = (0..n).find(|i| recs[*i].owner().as_slice() == r.owner().as_slice() && recs[*i].ttl() == r.ttl()
-                                    && recs[*i].rtype() == r.rtype() && recs[*i].data() == r.data())
+            let i = (0..recs.len()).find(|i| recs[*i].owner().as_slice() == r.owner().as_slice() && recs[*i].ttl() == r.ttl()
+                                             && recs[*i].rtype() == r.rtype() && recs[*i].data() == r.data())
+                // an updated record keeps the spelling of the record that was stored
+                .or_else(|| (0..recs.len()).find(|i| recs[*i].owner().name_eq(r.owner()) && recs[*i].ttl() == r.ttl()
+                                                      && recs[*i].rtype() == r.rtype() && recs[*i].data() == r.data()))
                 .ok_or("a stored record is none of the records added")?;
             stored.push(rrs[i].clone());
         }
